@@ -191,6 +191,37 @@ CHECKS["C20"] = dict(
     note=TB + "; numpy's and numba's argsort order equal keys differently: order of tree-query pairs is not compared when a 'sort' batch has ties",
 )
 
+CHECKS["C10"] = dict(
+    category="proof",
+    text=("(1) Coq theorems about the Gallina transliterations Model/DistPrim.v + DistPrimComb.v in exact real arithmetic, for ALL inputs meeting "
+          "the documented preconditions: the returned points lie exactly on their primitives, d = |p1-p2| >= 0, and d = 0 => a common point - "
+          "for 26 of the 34 functions (16 leaves incl. point_to_triangle's 7 Ericson arms and the unconditional 9-arm segment/segment function, "
+          "plane_to_rectangle/box, and 8 combinators through every enumeration order and early exit); Props/C10.v. (2) Tie to /repo on every "
+          "run: ALL 34 functions are modelled (incl. the line/box case tree, the line/circle root finder, the ellipsoid Newton loop, "
+          "disk_to_disk) and evaluated in binary64 inside coqc on the very inputs of the implementation; d and every coordinate of every "
+          "returned point must agree within 1e-9 L; model arm coverage and line/branch coverage of distance/*.py reached by the generated "
+          "calls are printed. (3) Per generated input, all 34 functions: 'points within 1e-9 L of their primitives, ||p1-p2| - d| <= 1e-6 L, "
+          "d >= 0' is a consequence of the Coq theorem Checker/Prim.c10_check_sound evaluated by vm_compute on exact rationals (witnesses "
+          "untrusted); an exact Python oracle runs as second opinion. Exception / NaN / modified argument = failure. NOT proved: float "
+          "rounding (measured by (2)); for 8 functions universality over inputs comes from generation only. Known findings F20 F21 FD4 FD5."),
+    design_ref="DESIGN.md section 5, C10",
+    technique="Coq proof over R about a hand-written Gallina model + binary64 model/implementation correspondence (vm_compute) + Coq-proven result checker on every generated input",
+    note=TB + "; harness/primlib.py (generators, witness construction, second-opinion oracle)",
+)
+CHECKS["C11"] = dict(
+    category="proof",
+    text=("Theorems for ALL inputs (same models and preconditions as C10): no pair of points of the two primitives is closer than the returned d, "
+          "for 25 of the 34 functions (the 16 leaf functions, plane_to_rectangle/box, and 7 combinators via clamp_of_convex_line_min - the "
+          "convexity argument the code comments cite, proved abstractly - and the polygon-pair edge lemmas); every theorem carries the epsilon "
+          "bands of the code's own tests as explicit hypotheses, inside the bands the failure is refuted with a witness (Props/C11.v). Per "
+          "generated input (documented epsilon bands excluded), all 34 functions: a separating-direction optimality certificate checked by the "
+          "Coq-proven checker (sep_cert_sound; rational sqrt bounds for round shapes), else a closer pair found by search and re-verified "
+          "exactly (=> failure), else 'undecided' (circle functions only; counted). Known findings F10 F11 F22 F23 (circle / disk functions)."),
+    design_ref="DESIGN.md section 5, C11",
+    technique="Coq proof of optimality over R about the Gallina model + Coq-proven separating-direction certificate checker on every generated input",
+    note=TB + "; circle functions (non-convex): exhaustive fine search as untrusted oracle, labelled in the evidence",
+)
+
 NA_DEFAULT = "no check registered yet: machinery under construction in this session (DESIGN.md section 5 has the plan); not claimed"
 NA = {}
 
